@@ -40,3 +40,31 @@ def get_grids(model):
     order = variable_info.index.tolist()
     return {k: grids[k] for k in order}
 
+
+def get_variable_info(model):
+    function_info = get_function_info(model)
+    variables = model.states | model.choices
+    info = pd.DataFrame(index=list(variables))
+    info['is_state'] = info.index.isin(model.states)
+    info['is_choice'] = ~info['is_state']
+    info['is_continuous'] = [isinstance(spec, ContinuousGrid) for spec in variables.values()]
+    info['is_discrete'] = ~info['is_continuous']
+    info['is_stochastic'] = [var in model.states and function_info.loc[f'next_{var}', 'is_stochastic_next'] for var in variables]
+    auxiliary_variables = _get_auxiliary_variables(state_variables=info.query('is_state').index.tolist(), function_info=function_info, user_functions=model.functions)
+    info['is_auxiliary'] = [var in auxiliary_variables for var in variables]
+    filter_names = function_info.query('is_filter').index.tolist()
+    filtered_variables: set[str] = set()
+    for name in filter_names:
+        filtered_variables.update(get_ancestors(model.functions, name))
+    info['is_sparse'] = [var in filtered_variables for var in variables]
+    info['is_dense'] = ~info['is_sparse']
+    order = info.query('is_sparse & is_state').index.tolist()
+    order += info.query('is_sparse & is_choice').index.tolist()
+    order += info.query('is_dense & is_discrete & is_state').index.tolist()
+    order += info.query('is_dense & is_discrete & is_choice').index.tolist()
+    order += info.query('is_dense & is_continuous & is_state').index.tolist()
+    order += info.query('is_dense & is_continuous & is_choice').index.tolist()
+    if set(order) != set(info.index):
+        raise ValueError('Order and index do not match.')
+    return info.loc[order]
+
